@@ -47,6 +47,7 @@ def run(rep, idx, tier):
     _glue.reset_discipline(rep, "C15.5", idx, ["WishboneSRAM"])
     _glue.iterable_handover(rep, "C15.5", idx, "WishboneSRAM.__init__", "init", "MemoryData", "init")
     _glue.write_once_handles(rep, "C15.5", idx, "WishboneSRAM")
+    _glue.param_refusals(rep, "C15.4", idx, only=["WishboneSRAM.__init__"])
     c = get_ctx(idx, "WishboneSRAM.elaborate")
     ctor = get_ctor(idx, "WishboneSRAM")
     rep.analysed(c.fi.site, ctor.fi.site)
